@@ -75,7 +75,8 @@ impl<const LIMBS: usize> Uint<LIMBS> {
             // Store the X_i bit in the result (x = x | (1 << X_i))
             let shifted = Uint::from_word(x_i)
                 .overflowing_shl_vartime(i)
-                .expect("shift within range");
+                // rounds `i >= BITS` (only for `k > BITS`) do not contribute, as in `inv_mod2k`
+                .unwrap_or(Self::ZERO);
             x = x.bitor(&shifted);
 
             i += 1;
